@@ -19,11 +19,11 @@ type FileMeta struct {
 
 // PatchMeta describes one supplied patch file.
 type PatchMeta struct {
-	Path     string   `json:"path"` // absolute, or "stdin"
-	Via      string   `json:"via"`  // p | P | stdin
+	Path     string      `json:"path"` // absolute, or "stdin"
+	Via      string      `json:"via"`  // p | P | stdin
 	Data     world.Bytes `json:"data"`
-	Markers  []string `json:"markers,omitempty"`  // description markers it carries
-	Triggers []string `json:"triggers,omitempty"` // identifiers every match of it requires
+	Markers  []string    `json:"markers,omitempty"`  // description markers it carries
+	Triggers []string    `json:"triggers,omitempty"` // identifiers every match of it requires
 }
 
 // Flags of a gopatch invocation.
@@ -131,19 +131,19 @@ type Replay struct {
 
 // Stats accumulates evidence counters inside a worker.
 type Stats struct {
-	Evaluations int               `json:"evaluations"`
-	Runs        int               `json:"runs"` // simulated executions (a case may need several)
-	Steps       uint64            `json:"steps"`
-	Ops         uint64            `json:"ops"`
-	Faults      map[string]int    `json:"faults_fired"`
-	Probes      map[string]int    `json:"probes"`
-	Distinct    map[string]bool   `json:"-"`
-	DistinctN   int               `json:"distinct"`
-	Samples     []json.RawMessage `json:"samples"`
-	Known       map[string]int    `json:"known"`
-	SitesHit    int               `json:"sites_hit"`
-	Cov         []uint64          `json:"cov,omitempty"`
-	DistinctKeys []string         `json:"distinct_keys,omitempty"`
+	Evaluations  int               `json:"evaluations"`
+	Runs         int               `json:"runs"` // simulated executions (a case may need several)
+	Steps        uint64            `json:"steps"`
+	Ops          uint64            `json:"ops"`
+	Faults       map[string]int    `json:"faults_fired"`
+	Probes       map[string]int    `json:"probes"`
+	Distinct     map[string]bool   `json:"-"`
+	DistinctN    int               `json:"distinct"`
+	Samples      []json.RawMessage `json:"samples"`
+	Known        map[string]int    `json:"known"`
+	SitesHit     int               `json:"sites_hit"`
+	Cov          []uint64          `json:"cov,omitempty"`
+	DistinctKeys []string          `json:"distinct_keys,omitempty"`
 }
 
 func NewStats() *Stats {
@@ -239,17 +239,17 @@ type Check interface {
 
 // CheckInfo is static information for the evidence file.
 type CheckInfo struct {
-	Level       string   `json:"level"`
-	Rule        string   `json:"rule"`
-	Assumptions []string `json:"assumptions"`
-	RealCode    []string `json:"real_components"`
-	Stubs       []string `json:"stub_components"`
+	Level          string   `json:"level"`
+	Rule           string   `json:"rule"`
+	Assumptions    []string `json:"assumptions"`
+	RealCode       []string `json:"real_components"`
+	Stubs          []string `json:"stub_components"`
 	RequiredProbes []string `json:"required_probes"`
 }
 
 var registry = map[string]Check{}
 
-func Register(c Check) { registry[c.ID()] = c }
+func Register(c Check)       { registry[c.ID()] = c }
 func Lookup(id string) Check { return registry[id] }
 func AllIDs() []string {
 	var ids []string
